@@ -712,7 +712,10 @@ class Variant(productmd.composeinfo.VariantBase):
         else:
             self.name = self.id
 
-        if self.type == "variant":
+        # children of a pre-productmd variant are addons and have no children of
+        # their own; as sections are found by variant ID, following them any
+        # deeper would re-read the same sections once per path leading to them
+        if self.type == "variant" and not addon:
             lookup = [
                 (section, "addons"),
                 (section, "variants"),
@@ -740,7 +743,7 @@ class Variant(productmd.composeinfo.VariantBase):
                 if not addon_uid.startswith("%s-" % self.uid):
                     addon_uid = "%s-%s" % (self.uid, addon_uid)
                 addon = Variant(self._metadata)
-                addon.deserialize(parser, addon_uid)
+                addon.deserialize(parser, addon_uid, addon=True)
                 # HACK: for RHEL 5 addons
                 addon.type = "addon"
                 self.add(addon)
